@@ -10,6 +10,32 @@
 // model the driver applies the property's own statement (direct oracle).  A malformed stream
 // (unexpected files and directories, near-miss file names, stray files in legacy directories)
 // checks the error cases of the model.
+//
+// OBSERVATIONS OUTSIDE C09's POPULATION GRAMMAR (malformed directories; not request-triggered, not
+// reported by the check; the generated malformed stream is restricted to shapes where start-up
+// deterministically returns an error):
+//
+//  1. scanDir panics with "send on closed channel" (load.go, `scanResults <- scanResult{...}`)
+//     instead of returning its error when the walk of the cache directory meets an unexpected
+//     file or directory AFTER it has handed <kind>.v2/<xx> directories to the workers (any stray
+//     name sorting after "ac.v2"): the early return runs the deferred close(scanResults) while
+//     workers are still sending.  Reproduce: `loader repro-panic` (2 of 3 runs panic).
+//  2. scanDir hangs for ever instead of returning an error when unrecognised files (e.g. macOS
+//     .DS_Store, which IS tolerated at the two upper levels) sit in at least as many leaf
+//     directories as there are workers (4..16): every worker returns at its first bad file and
+//     stops draining the work channel, the dispatcher blocks on `dc <- dirPath`.
+//     Reproduce: `loader repro-hang` (New does not return).
+//  3. migrateDirectory's error path (a failing os.Rename of a v0 file, e.g. across file systems):
+//     the worker blocks for ever on the unbuffered errChan when the failure happens on the last
+//     items, otherwise the dispatcher closes itemChan twice / sends on the closed channel (panic).
+//     By reading; the model (Model/Load.v migrate_items) says Hang.
+//  4. migrateDirectory panics at oldName[:2] on a directory with a one-byte name inside a legacy
+//     ac/ cas/ raw/ directory.  By reading; the model says Panic.
+//
+// Also by design of the code, not flagged: a stray (non-hash, non-.DS_Store) file in a v1
+// subdirectory makes migrateV1Subdir stop there; the rest of that subdirectory is not migrated
+// and is deleted with the legacy directory (os.RemoveAll), only a warning is logged.  The model
+// follows the code (malformed-stream class 8).
 package main
 
 import (
